@@ -121,3 +121,16 @@ Proof.
       end. reflexivity.
   - repeat match goal with |- context [if ?cnd then _ else _] => destruct cnd end; auto.
 Qed.
+
+(* ---- the validity check is reached in EVERY source format: a box accepted by the conversion with
+        check_validity passes check_bbox (so it lies in the unit cube with positive extents) ---- *)
+Theorem converted_boxes_are_checked b fmt r c s b' :
+  convert_bbox_to_dicaugment b fmt r c s true = Ok b' -> check_bbox b' = Ok tt.
+Proof.
+  unfold convert_bbox_to_dicaugment. intros E.
+  match type of E with (if ?g then _ else _) = _ => destruct g; [discriminate|] end.
+  apply bind_ok in E. destruct E as (x & Ex & E). destruct x as [[[[[[tl xM] xm] yM] ym] zM] zm].
+  cbv zeta in E. apply bind_ok in E. destruct E as (vb & Evb & E).
+  apply bind_ok in E. destruct E as (u & Eu & E). inversion E; subst; clear E.
+  cbn [andb] in Eu. apply bind_ok in Eu. destruct Eu as (r0 & Er & _). destruct r0. exact Er.
+Qed.
